@@ -260,8 +260,9 @@ def Rodas(dae: nDAE,
                                 if iterate > 100:
                                     print(f"Lost Event in interval [{told}, {t}].\n")
                                     break
-                            if np.abs(tevent - told) < opt.event_duration:
-                                # We're not going to find events closer than tol.
+                            if np.abs(tevent - told) < opt.event_duration and (
+                                    told == t0 or (nevent >= 0 and told == te[nevent])):
+                                # this close to the start of the run or to the event just located it is that same event
                                 break
                             t = tevent
                             ynew = ynext
